@@ -118,13 +118,17 @@ func VerifC15Delete() {
 	s := c15shard(db, true)
 	a := meta.VerifAddr(0, 1)
 	_ = db.Put(meta.VerifObj(0, 1, object.TypeRegular, -1, 3))
+	where := ""
 	switch vrt.Choice("dataLocation", 3) {
 	case 0:
 		c15.wc[a] = true
+		where = "data only in the write-cache"
 	case 1:
 		c15.blob[a] = true
+		where = "data in the blob storage"
 	case 2:
 		c15.wc[a], c15.blob[a] = true, true
+		where = "data in the write-cache and in the blob storage"
 	}
 	marked := vrt.Bool("objectIsGarbageMarked")
 	if marked {
@@ -136,7 +140,7 @@ func VerifC15Delete() {
 	} else {
 		ok, err := db.Exists(a, false)
 		if ok && err == nil {
-			vrt.Assert(c15.blob[a] || c15.wc[a], "forced deletion of an available object: metadata never outlives the data across a crash")
+			vrt.Assert(c15.blob[a] || c15.wc[a], "forced deletion of an available object ("+where+"): metadata never outlives the data across a crash")
 		}
 	}
 	if crashed {
